@@ -72,6 +72,7 @@ type astEnv struct {
 
 func (e *Exec) snapshot(s *State) *State {
 	n := &State{heap: s.heap.clone(), candSet: map[string]bool{}, ex: e}
+	n.rangeApps = append([]*rangeApp(nil), s.rangeApps...)
 	n.pure = 1
 	return n
 }
@@ -100,10 +101,16 @@ func (e *Exec) newQuant(s *State, q *Quant) *Term {
 // ---- clause evaluation entry points
 
 func (e *Exec) evalClause(s *State, f *Frame, cl *Clause, old *oldCtx) *Term {
+	if old == nil && f != nil && f.isTop {
+		old = &oldCtx{s: e.entryState, env: e.entryVars} // old(e) in an invariant: value at function entry
+	}
 	return e.evalClauseEnvRes(s, f, cl, e.varsFor(f), old, nil)
 }
 
 func (e *Exec) evalClauseVal(s *State, f *Frame, cl *Clause, old *oldCtx) Value {
+	if old == nil && f != nil && f.isTop {
+		old = &oldCtx{s: e.entryState, env: e.entryVars}
+	}
 	return e.evalClauseValEnv(s, f, cl, e.varsFor(f), old, nil)
 }
 
@@ -767,6 +774,8 @@ func (e *Exec) evalPureCall(s *State, fn *ssa.Function, args []Value, free []Val
 		return e.pureResult(s, con, args, fn.Signature.Results().At(0).Type(), fnKey(fn))
 	}
 	sub := &State{heap: s.heap.clone(), candSet: map[string]bool{}, pure: 1, ex: e}
+	sub.rangeApps = append([]*rangeApp(nil), s.rangeApps...)
+	nApps := len(sub.rangeApps)
 	sub.pcBase = 0
 	var results []pureResult
 	e.pureDepth++
@@ -801,6 +810,9 @@ func (e *Exec) evalPureCall(s *State, fn *ssa.Function, args []Value, free []Val
 	e.work = saved
 	e.pureDepth--
 	for _, st := range finished {
+		if len(st.rangeApps) > nApps {
+			s.rangeApps = append(s.rangeApps, st.rangeApps[nApps:]...)
+		}
 		s.quants = append(s.quants, st.quants...)
 		s.axioms = append(s.axioms, st.axioms...)
 		for _, cd := range st.cands {
@@ -898,6 +910,15 @@ func (e *Exec) buildQuery(s *State, extra []*Term) (string, string) {
 	}
 	for _, t := range extra {
 		add(t)
+	}
+	// congruence axioms of uninterpreted byte-range functions whose results occur in this query
+	if len(e.rangeAxioms) > 0 {
+		used := c.Used(asserts)
+		for _, ra := range e.rangeAxioms {
+			if used[ra.a] && used[ra.b] {
+				asserts = append(asserts, ra.ax.S)
+			}
+		}
 	}
 	done := map[string]bool{}
 	nAx := 0
